@@ -355,10 +355,11 @@ class Gen:
             elif cmd in ("const", "static"):
                 src = Source.get(os.path.join(self.root, toks[0]))
                 mkpub = "pub" in toks[1:]
+                dosubst = "subst" in toks[1:]  # the fragment-wide substitutions apply to this item's text as well (logged)
                 for nm in toks[1:]:
-                    if nm == "pub":
+                    if nm in ("pub", "subst"):
                         continue
-                    self._emit_item(src, r"^\s*(pub(\([a-z]+\))?\s+)?(const|static)\s+" + re.escape(nm) + r"\b", name, mkpub)
+                    self._emit_item(src, r"^\s*(pub(\([a-z]+\))?\s+)?(const|static)\s+" + re.escape(nm) + r"\b", name, mkpub, dosubst)
             elif cmd in ("struct", "enum", "trait"):
                 src = Source.get(os.path.join(self.root, toks[0]))
                 mkpub = "pub" in toks[1:]
@@ -413,13 +414,20 @@ class Gen:
                 raise Undecided(f"{rel_tpl}:{i+1}: unknown directive {cmd}")
             i += 1
 
-    def _emit_item(self, src, header_re, fragname, mkpub=False):
+    def _emit_item(self, src, header_re, fragname, mkpub=False, dosubst=False):
         r = src.find_block(header_re)
         if r is None:
             raise Undecided(f"lost anchor: item /{header_re}/ not found in {src.rel}")
         b, ob, e = r
         text = src.text[b:e]
-        lines = text.split("\n")
+        text_out = text
+        if dosubst:
+            for (pat, rep) in getattr(self, "substs", []):
+                t2, nsub = re.subn(pat, rep, text_out)
+                if nsub:
+                    self.log.append(f"SUBST in item {src.rel} /{header_re}/: /{pat}/ => /{rep}/ x{nsub}")
+                    text_out = t2
+        lines = text_out.split("\n")
         # split leading attribute lines from the rest, filter only attributes anywhere in item
         lines = filter_attr_lines(lines, self.log)
         if mkpub:
@@ -503,9 +511,30 @@ class Gen:
         body_mask = src.mask[ob:e] if ob is not None else None
         attrs = filter_attr_lines([x for x in attr_text.split("\n") if x.strip()], self.log)
         # --- parse the contract block
+        self._ghostparam = None
         contract, loops, injects, rewrites = self._parse_block(block, rel_tpl)
         # --- signature: name the result
         sig_out = sig
+        if self._ghostparam:
+            mm = re.search(r"\bfn\s+" + re.escape(name) + r"\b", sig_mask)
+            po = sig_mask.find("(", mm.end())
+            d, pc = 0, None
+            for ix in range(po, len(sig_mask)):
+                if sig_mask[ix] == "(":
+                    d += 1
+                elif sig_mask[ix] == ")":
+                    d -= 1
+                    if d == 0:
+                        pc = ix
+                        break
+            if pc is None:
+                raise Undecided(f"{rel_tpl}:{tpl_line}: cannot find the parameter list of {name}")
+            inner = sig[po + 1:pc].rstrip()
+            sep = "" if (not inner.strip() or inner.endswith(",")) else ","
+            sig = sig[:po + 1] + inner + sep + " " + self._ghostparam + sig[pc:]
+            sig_mask = sig_mask[:po + 1] + sig_mask[po + 1:po + 1 + len(inner)] + " " * (len(sep) + 1 + len(self._ghostparam)) + sig_mask[pc:]
+            sig_out = sig
+            self.log.append(f"G1 ghost parameter `{self._ghostparam}` appended to the signature of {rel}::{name} (state-passing model of the account heap)")
         if binder:
             sig_out = self._bind_result(sig, sig_mask, binder, name, rel)
         if make_pub and not re.match(r"\s*pub\b", sig_out):
@@ -600,6 +629,10 @@ class Gen:
                     }
                     rewrites.append(dict(pat=pats[c][0], rep=pats[c][1], count=cnt, tl=tl))
                     cur = ("none", None)
+                elif c == "ghostparam":
+                    # //@ ghostparam <param text>: one more (ghost/tracked) parameter appended to the signature - the state-passing model of
+                    # interior mutability (the account heap the real code reaches through raw pointers); logged
+                    self._ghostparam = tx.strip()[len("//@ ghostparam"):].strip()
                 elif c == "rewrite":
                     # //@ rewrite /pattern/ => /replacement/ [count]
                     cnt = int(t[3]) if len(t) > 3 else 1
